@@ -2,7 +2,7 @@ SPECIFICATION Spec
 CONSTANTS
   CatchReceiveError = TRUE
   ResetOnAccept = FALSE
-  ResetOnEof = FALSE
+  ResetOnEof = TRUE
   CatchSendError = TRUE
   MaxConns = 3
   MaxEdits = 1
